@@ -195,11 +195,28 @@ def check_solved(ctx, c, label, dr, rng, fails):
         ctx.skip('solve did not converge (not judged)')
         return
     import pyPRISM
-    g = pyPRISM.calculate.pair_correlation(P)
     r = np.asarray(P.sys.domain.r, dtype=float)
     fun = np.asarray(res.fun, dtype=float).reshape(-1, 2, 2)
     T = {NA: 0, NB: 1}
-    for name, (a, b) in PAIRS.items():
+    g_first = pyPRISM.calculate.pair_correlation(P)
+    # ... and the same statement once more after the user has looked at other quantities of the solved object (what is stored
+    # inside the cores stays what the solve left there; transforms there and back add rounding, not structure)
+    with warnings.catch_warnings():
+        warnings.simplefilter('ignore')
+        with np.errstate(all='ignore'):
+            try:
+                pyPRISM.calculate.second_virial(P)
+                pyPRISM.calculate.structure_factor(P)
+                pyPRISM.calculate.solvation_potential(P)
+                g_later = pyPRISM.calculate.pair_correlation(P)
+            except Exception as ex:      # noqa
+                g_later = None
+                ctx.violation('SolvedCoreEmpty', {'family': 'replay.solved', 'action': 'Calc', 'config': c, 'dr': dr,
+                                                  'detail': 'post-processing of a solved object raised: %s: %s' % (type(ex).__name__, str(ex)[:120])})
+    for g, slack, when in ((g_first, 1e-12, 'after solve'), (g_later, 1e-9, 'after second_virial, structure_factor, solvation_potential')):
+      if g is None:
+          continue
+      for name, (a, b) in PAIRS.items():
         if not label['hard'][name]:
             continue
         n = label['ncore'][name]
@@ -207,19 +224,19 @@ def check_solved(ctx, c, label, dr, rng, fails):
         idx = np.arange(n)
         idx = idx[~((np.abs(r[idx] - sigma) < 1e-6) & (r[idx] != sigma))]
         gv = np.asarray(g[a, b], dtype=float)[idx]
-        bound = np.abs(fun[idx, T[a], T[b]]) / r[idx] + 1e-12
-        ctx.count(('solved', dr, name, c['pairs'][name]['clos'], c['pairs'][name]['flag'], c['pairs'][name]['pot']))
+        bound = np.abs(fun[idx, T[a], T[b]]) / r[idx] + slack
+        ctx.count(('solved', dr, name, c['pairs'][name]['clos'], c['pairs'][name]['flag'], c['pairs'][name]['pot'], when))
         bad = ~(np.abs(gv) <= bound)
         if bad.any():
             i = int(idx[np.argmax(bad)])
-            key = ('SolvedCoreEmpty', c['pairs'][name]['clos'], c['pairs'][name]['flag'])
+            key = ('SolvedCoreEmpty', c['pairs'][name]['clos'], c['pairs'][name]['flag'], when)
             if key in fails:
                 continue
             fails.add(key)
             ctx.violation('SolvedCoreEmpty', {'family': 'replay.solved', 'action': 'Solve', 'pair': name, 'pair_cfg': c['pairs'][name], 'config': c,
                                               'dr': dr, 'point': i + 1, 'r': float(r[i]), 'observed': float(np.asarray(g[a, b])[i]),
-                                              'bound': float(np.abs(fun[i, T[a], T[b]]) / r[i] + 1e-12),
-                                              'detail': '|g(r)| inside the core exceeds the solver residual divided by r'})
+                                              'bound': float(np.abs(fun[i, T[a], T[b]]) / r[i] + slack), 'when': when,
+                                              'detail': '|g(r)| inside the core exceeds the solver residual divided by r (%s)' % when})
     return True
 
 
